@@ -5,6 +5,7 @@ pub mod ledger;
 pub mod monitor;
 pub mod prng;
 pub mod refmmr;
+pub mod scenarios;
 pub mod snapshot;
 pub mod world;
 
